@@ -8,7 +8,6 @@ inherited downwards (`att_mono`, `hash_mono`); these carry the shape-changing ch
 `AnyStruct` / `AnyResource` / `AnyStructAttachment` / `AnyResourceAttachment` / `HashableStruct`.
 -/
 import Verif.Proofs.SubNominal
-import Verif.Proofs.SubAgree2
 import Verif.Proofs.Auth
 namespace Verif.Proofs.SubTrans
 open Verif.Model.Types Verif.Model.Types.Struct Verif.Model.Auth Verif.Proofs.SubUnfold Verif.Proofs.SubNominal
